@@ -168,6 +168,7 @@ def run(case, ctx):
             inputs = [INPUTS[int(rng.integers(len(INPUTS)))]] if case["i"] % 2 else ["normal"]
             inputs = ["normal"] + [i for i in inputs if i != "normal"]
             for inp in inputs:
+                worst = float("nan")  # (all four draws may be rejected as near ties before anything is measured)
                 for attempt in range(4):
                     x = mlgen.random_multi(rng, sig, D, sp, torus, kind=inp, scale=float([1.0, 1.0, 1e-3, 1e3][int(rng.integers(4))]))
                     if patch and kind in ("maxnormpool", "max_pool_fn", "gi_max_pool") and inp == "normal" and any(mlgen.near_tie(v, D, patch) for v in x.data.values()):
